@@ -277,6 +277,9 @@ func TestC05(t *testing.T) {
 				}
 			case "inject-tiny":
 				l := c.Int("tiny.len", 4, 27)
+				if c.Bool("tiny.edge") {
+					l = core.OneOf(c, "tiny.len.e", 4, 5, 11, 12, 13, 27)
+				}
 				data := c.Bytes("tiny.bytes", l)
 				binary.BigEndian.PutUint16(data, uint16(l))
 				insert(pos, c05Chunk{data: data, orig: -1, what: fmt.Sprintf("tiny(%d)", l)})
